@@ -1,19 +1,26 @@
 use crate::Stream;
 
+pub mod c04;
 pub mod c08;
 pub mod dbg;
+pub mod ir;
 pub mod c09;
 pub mod c10;
 pub mod c11;
 pub mod c12;
+pub mod c14;
 pub mod c15;
 pub mod c17;
 pub mod c18;
 pub mod c19;
+pub mod c20;
 
 pub fn lookup(name: &str) -> Option<Box<dyn Stream>> {
     match name {
         "c19" => Some(Box::new(c19::C19::new())),
+        "c04" => Some(Box::new(c04::C04::new())),
+        "c14" => Some(Box::new(c14::C14::new())),
+        "c20" => Some(Box::new(c20::C20::new())),
         "c18" => Some(Box::new(c18::C18::new())),
         "c17" => Some(Box::new(c17::C17::new())),
         "c15" => Some(Box::new(c15::C15::new())),
@@ -22,6 +29,7 @@ pub fn lookup(name: &str) -> Option<Box<dyn Stream>> {
         "c09" => Some(Box::new(c09::C09::new())),
         "c08" => Some(Box::new(c08::C08::new())),
         "dbg" => Some(Box::new(dbg::Dbg::new())),
+        "ir" => Some(Box::new(ir::Ir::new())),
         "c11" => Some(Box::new(c11::C11::new())),
         _ => None,
     }
